@@ -198,6 +198,17 @@ class Inliner:
         f = call.func
         q = None
         skip_self = False
+        obj_method = False
+        self._recv = None
+        ctor_of = getattr(self, "_ctor_target", None)
+        if ctor_of is not None and isinstance(f, ast.Name) and f.id == getattr(self, "_objects", {}).get(ctor_of):
+            # name = _C(args): the constructor body, run on the object called <name>
+            q = "{}.__init__".format(f.id)
+            g = self.mod.funcs.get(q) or getattr(self, "_synth_init", {}).get(f.id)
+            if g is None or g.decorator_list or g.args.vararg or g.args.kwarg or g.args.posonlyargs:
+                return None
+            self._recv = ctor_of
+            return g, q, [a.arg for a in g.args.args][1:], g.args.args[0].arg
         if isinstance(f, ast.Name):
             q = f.id
             if q in self._caller_locals:
@@ -210,14 +221,25 @@ class Inliner:
             if f.value.id in ("self", "cls") and cls:
                 q = "{}.{}".format(cls, f.attr)
                 skip_self = True
+            elif f.value.id in getattr(self, "_objects", {}):
+                # a method of a local object of a private helper class (see _local_objects)
+                q = "{}.{}".format(self._objects[f.value.id], f.attr)
+                skip_self = True
+                self._recv = f.value.id
+                obj_method = True
             elif f.value.id in self.mod.classes:
                 q = "{}.{}".format(f.value.id, f.attr)
         if q is None:
             return None
         short = q.split(".")[-1]
-        if not short.startswith("_") or short.startswith("__") or short in ANCHORS:
+        if obj_method:
+            if short.startswith("__") or q in ANCHORS:
+                return None
+        elif not short.startswith("_") or short.startswith("__") or short in ANCHORS:
             return None
         g = self.mod.funcs.get(q)
+        if g is None and obj_method and short == "__init__":
+            g = getattr(self, "_synth_init", {}).get(q.split(".")[0])
         if g is None and skip_self:
             # inherited from a base class of the same module
             cnode = self.mod.classes.get(cls)
@@ -269,7 +291,7 @@ class Inliner:
         tag = self.counter
         subst, rename, prelude = {}, {}, []
         if selfname:
-            subst[selfname] = ast.Name(id="self", ctx=ast.Load())
+            subst[selfname] = ast.Name(id=getattr(self, "_recv", None) or "self", ctx=ast.Load())
             if selfname in assigned:
                 raise Bail()
         uses = {}
@@ -387,7 +409,13 @@ class Inliner:
             call, form = s.value.value, "yieldfrom"
         if call is None:
             return None
+        self._ctor_target = None
+        if form == "assign" and isinstance(target, ast.Name) and target.id in getattr(self, "_objects", {}) \
+                and isinstance(call.func, ast.Name) and call.func.id == self._objects[target.id]:
+            self._ctor_target = target.id
+            form = "expr"           # __init__ returns nothing; its stores go to <target>.<field>
         r = self.resolve(call, caller, cls)
+        self._ctor_target = None
         if r is None:
             return None
         g, q, params, selfname = r
@@ -562,7 +590,7 @@ class Inliner:
                     comp = _comp_targets(g)
                     subst = {}
                     if selfname:
-                        subst[selfname] = ast.Name(id="self", ctx=ast.Load())
+                        subst[selfname] = ast.Name(id=getattr(inl, "_recv", None) or "self", ctx=ast.Load())
                     for p in params:
                         e = given.get(p, defaults.get(p))
                         if e is None or (p not in given and not isinstance(e, ast.Constant)):
@@ -590,6 +618,8 @@ class Inliner:
         self._stack = getattr(self, "_stack", [])
         qual = getattr(fn, "_qual", fn.name)
         self._stack.append(qual)
+        saved_objects = getattr(self, "_objects", {})
+        self._objects = self._local_objects(fn) if depth == 0 else {}
         try:
             for _round in range(MAX_DEPTH):
                 caller_names = _all_names(fn)
@@ -646,9 +676,215 @@ class Inliner:
                         fn.body.insert(k, ast.Global(names=new, lineno=fn.lineno, col_offset=0))
                 if not changed[0]:
                     break
+            if self._objects:
+                self._scalar_replace(fn)
         finally:
             self._stack.pop()
+            self._objects = saved_objects
         return fn
+
+    # -- local objects of private helper classes ----------------------------------------
+    def _simple_private_class(self, name):
+        """a private class of the module with no base, no class-level state other than annotated
+        fields, no properties and no dunder methods besides __init__: its instances are records
+        with methods"""
+        c = self.mod.classes.get(name)
+        if c is None or not name.startswith("_") or name in ANCHORS:
+            return None
+        if any(not (isinstance(b, ast.Name) and b.id == "object") for b in c.bases) or c.keywords:
+            return None
+        decos = [ast.unparse(d) for d in c.decorator_list]
+        if any(not (d == "dataclass" or d.startswith("dataclass(") or d.endswith(".dataclass")) for d in decos):
+            return None
+        for st in c.body:
+            if isinstance(st, ast.Expr) and isinstance(st.value, ast.Constant):
+                continue
+            if isinstance(st, ast.Pass):
+                continue
+            if isinstance(st, ast.AnnAssign) and isinstance(st.target, ast.Name):
+                if not decos:
+                    return None
+                continue
+            if isinstance(st, ast.Assign) and all(isinstance(t, ast.Name) and t.id == "__slots__" for t in st.targets):
+                continue
+            if isinstance(st, ast.FunctionDef):
+                if st.decorator_list:
+                    return None
+                if st.name.startswith("__") and st.name != "__init__":
+                    return None
+                continue
+            return None
+        return c
+
+    def _local_objects(self, fn):
+        """local name -> class, for names bound exactly once, by NAME = _C(...), to an instance of a
+        simple private class and used only as NAME.<attr>"""
+        binds = {}
+        for n in _own_nodes(fn):
+            if isinstance(n, ast.Assign) and len(n.targets) == 1 and isinstance(n.targets[0], ast.Name) \
+                    and isinstance(n.value, ast.Call) and isinstance(n.value.func, ast.Name):
+                binds.setdefault(n.targets[0].id, []).append(n.value.func.id)
+            elif isinstance(n, ast.Name) and isinstance(n.ctx, ast.Store):
+                binds.setdefault(n.id, [])
+        out = {}
+        stores = {}
+        for n in _own_nodes(fn):
+            if isinstance(n, ast.Name) and isinstance(n.ctx, ast.Store):
+                stores[n.id] = stores.get(n.id, 0) + 1
+        params = {a.arg for a in ast.walk(fn.args) if isinstance(a, ast.arg)}
+        for name, classes in binds.items():
+            if len(classes) != 1 or stores.get(name, 0) != 1 or name in params:
+                continue
+            c = self._simple_private_class(classes[0])
+            if c is None:
+                continue
+            # every other use is NAME.<attr>
+            ok = True
+            attr_parents = set()
+            for n in ast.walk(fn):
+                if isinstance(n, ast.Attribute) and isinstance(n.value, ast.Name) and n.value.id == name:
+                    attr_parents.add(id(n.value))
+            for n in ast.walk(fn):
+                if isinstance(n, ast.Name) and n.id == name and isinstance(n.ctx, ast.Load) \
+                        and id(n) not in attr_parents:
+                    ok = False
+            if not ok:
+                continue
+            out[name] = classes[0]
+            if classes[0] + ".__init__" not in self.mod.funcs:
+                synth = self._dataclass_init(c)
+                if synth is None:
+                    del out[name]
+                    continue
+                self._synth_init = getattr(self, "_synth_init", {})
+                self._synth_init[classes[0]] = synth
+        return out
+
+    @staticmethod
+    def _dataclass_init(c):
+        """the __init__ a dataclass generates: self.f = f for every annotated field, with the
+        field's default or default_factory() as the parameter default"""
+        args, defaults, body = [ast.arg(arg="self")], [], []
+        for st in c.body:
+            if not (isinstance(st, ast.AnnAssign) and isinstance(st.target, ast.Name)):
+                continue
+            if "ClassVar" in ast.unparse(st.annotation):
+                continue
+            name = st.target.id
+            v = st.value
+            if v is None:
+                if defaults:
+                    return None
+                args.append(ast.arg(arg=name))
+                body.append(ast.Assign(targets=[ast.Attribute(value=ast.Name(id="self", ctx=ast.Load()), attr=name,
+                                                              ctx=ast.Store())], value=ast.Name(id=name, ctx=ast.Load())))
+                continue
+            if isinstance(v, ast.Call) and isinstance(v.func, ast.Name) and v.func.id == "field":
+                kw = {k.arg: k.value for k in v.keywords}
+                if "default_factory" in kw:
+                    # not a parameter the call sites here use: the factory runs in the constructor
+                    body.append(ast.Assign(targets=[ast.Attribute(value=ast.Name(id="self", ctx=ast.Load()), attr=name,
+                                                                  ctx=ast.Store())],
+                                           value=ast.Call(func=clone(kw["default_factory"]), args=[], keywords=[])))
+                    continue
+                if "default" in kw:
+                    v = kw["default"]
+                else:
+                    return None
+            if not isinstance(v, ast.Constant):
+                return None
+            args.append(ast.arg(arg=name))
+            defaults.append(clone(v))
+            body.append(ast.Assign(targets=[ast.Attribute(value=ast.Name(id="self", ctx=ast.Load()), attr=name,
+                                                          ctx=ast.Store())], value=ast.Name(id=name, ctx=ast.Load())))
+        fn = ast.FunctionDef(name="__init__", args=ast.arguments(posonlyargs=[], args=args, vararg=None, kwonlyargs=[],
+                                                                 kw_defaults=[], kwarg=None, defaults=defaults),
+                             body=body or [ast.Pass()], decorator_list=[], returns=None, type_comment=None,
+                             lineno=getattr(c, "lineno", 1), col_offset=0)
+        ast.fix_missing_locations(fn)
+        fn._cls = c.name
+        fn._qual = c.name + ".__init__"
+        return fn
+
+    def _scalar_replace(self, fn):
+        """after the methods and the constructor of a local object were inlined, NAME.<field> is all
+        that is left of it: the fields become locals NAME__<field>"""
+        for name, cname in self._objects.items():
+            c = self.mod.classes.get(cname)
+            methods = {st.name for st in c.body if isinstance(st, ast.FunctionDef)}
+            ok = True
+            attr_parents = set()
+            for n in ast.walk(fn):
+                if isinstance(n, ast.Attribute) and isinstance(n.value, ast.Name) and n.value.id == name:
+                    attr_parents.add(id(n.value))
+                    if n.attr in methods:
+                        ok = False      # a method call that was not inlined
+            for n in ast.walk(fn):
+                if isinstance(n, ast.Name) and n.id == name and id(n) not in attr_parents:
+                    ok = False          # the object itself is still used (construction not inlined, escape)
+            if not ok:
+                continue
+
+            class _F(ast.NodeTransformer):
+                def visit_Attribute(self, n):
+                    n = self.generic_visit(n)
+                    if isinstance(n.value, ast.Name) and n.value.id == name:
+                        return ast.copy_location(ast.Name(id="{}__{}".format(name, n.attr), ctx=n.ctx), n)
+                    return n
+            fn.body = [_F().visit(st) for st in fn.body]
+            ast.fix_missing_locations(fn)
+            self._propagate_copies(fn, name + "__")
+
+    @staticmethod
+    def _propagate_copies(fn, prefix):
+        """a field local that is bound once, to a name that is itself bound at most once (a parameter,
+        a closure made before) or to a constant, is that value: uses are replaced, the binding goes"""
+        stores, params = {}, {a.arg for a in ast.walk(fn.args) if isinstance(a, ast.arg)}
+        for n in _own_nodes(fn):
+            if isinstance(n, ast.Name) and isinstance(n.ctx, (ast.Store, ast.Del)):
+                stores[n.id] = stores.get(n.id, 0) + 1
+            elif isinstance(n, ast.arg):
+                pass
+        # names rebound in nested functions / comprehensions count as stores too
+        for n in ast.walk(fn):
+            if isinstance(n, (ast.Global, ast.Nonlocal)):
+                for nm in n.names:
+                    stores[nm] = stores.get(nm, 0) + 2
+        copies = {}
+        for st in ast.walk(fn):
+            if isinstance(st, ast.Assign) and len(st.targets) == 1 and isinstance(st.targets[0], ast.Name) \
+                    and st.targets[0].id.startswith(prefix) and stores.get(st.targets[0].id) == 1:
+                v = st.value
+                if isinstance(v, ast.Constant) or (
+                        isinstance(v, ast.Name) and v.id != st.targets[0].id and
+                        (stores.get(v.id, 0) == 0 and v.id in params or stores.get(v.id, 0) == 1)):
+                    copies[st.targets[0].id] = (v, st)
+        if not copies:
+            return
+        dead = {id(st) for _v, st in copies.values()}
+
+        class _P(ast.NodeTransformer):
+            def visit_Name(self, n):
+                if isinstance(n.ctx, ast.Load) and n.id in copies:
+                    return ast.copy_location(clone(copies[n.id][0]), n)
+                return n
+
+        def prune(stmts):
+            out = []
+            for st in stmts:
+                if id(st) in dead:
+                    continue
+                for fld in ("body", "orelse", "finalbody"):
+                    sub = getattr(st, fld, None)
+                    if isinstance(sub, list) and sub and isinstance(sub[0], ast.stmt):
+                        setattr(st, fld, prune(sub) or [ast.Pass()])
+                for h in getattr(st, "handlers", []) or []:
+                    h.body = prune(h.body) or [ast.Pass()]
+                out.append(st)
+            return out
+        fn.body = prune(fn.body)
+        fn.body = [_P().visit(st) for st in fn.body]
+        ast.fix_missing_locations(fn)
 
 
 class _Normalise(ast.NodeTransformer):
